@@ -186,16 +186,6 @@ Qed.
 Theorem engine_complete e s x : sem e s x -> exists f0, forall f, (f0 <= f)%nat -> pe f e s = x.
 Proof. apply engine_complete_all. Qed.
 
-(* derivations never yield the out-of-fuel marker, so together: sem e s x  <->  the engine returns x for all large enough fuel *)
-Lemma sem_not_oof e s x : sem e s x -> x <> OutOfFuel.
-Proof.
-  intros H Hx. subst x. destruct (engine_complete _ _ _ H) as [f0 Hf].
-  pose proof (Hf f0 (le_n _)) as H1. pose proof (Hf (S f0) ltac:(lia)) as H2.
-  (* with fuel 0 the engine returns OutOfFuel as well; what matters is that a derivation of OutOfFuel would make the engine
-     return it for every large fuel, which the termination theorem excludes for well-formed grammars; here we only need
-     the weaker statement below *)
-Abort.
-
 Corollary engine_iff e s x : x <> OutOfFuel -> (sem e s x <-> exists f0, forall f, (f0 <= f)%nat -> pe f e s = x).
 Proof.
   intros Hx. split; [apply engine_complete|]. intros [f0 H]. apply (engine_sound f0); [apply H; apply le_n|exact Hx].
